@@ -274,6 +274,7 @@ func cmdCheck(args []string) int {
 	var unclaimed []*Obligation
 	discharged := 0
 	claimed := 0
+	retrySpent := 0.0
 	for _, o := range pr.obls {
 		if o.Expect == "sat" {
 			if o.Res.Verdict == "unsat" {
@@ -295,12 +296,26 @@ func cmdCheck(args []string) int {
 				failures = append(failures, &Failure{O: o, Kind: "undecided"})
 				continue
 			}
-			// retry harder before saying anything
-			retryT := 25
+			// retry harder before saying anything - within a total budget: on a tree that breaks many obligations at once the
+			// verdict is clear long before every one of them has had its second chance
+			retryT := 40
+			budget := 150.0
 			if *tier == "thorough" {
 				retryT = 90
+				budget = 900.0
 			}
+			if retrySpent > budget {
+				if inBaseline[o.ID] || len(bl.Discharged[prop]) == 0 {
+					claimed++
+					failures = append(failures, &Failure{O: o, Kind: "undecided"})
+				} else {
+					unclaimed = append(unclaimed, o)
+				}
+				continue
+			}
+			t0r := time.Now()
 			r := solve(o.Query, retryT, false)
+			retrySpent += time.Since(t0r).Seconds()
 			if r.Verdict == "unknown" && *tier == "thorough" {
 				r = solve(strings.Replace(o.Query, "(set-logic ALL)", "(set-logic ALL)\n(set-option :smt.random_seed 7)", 1), retryT, false)
 			}
@@ -519,6 +534,24 @@ func writeEvidence(prop, tier string, seed int, pr *PropRun, failures []*Failure
 		cov["known_findings"] = dedup(knownHit)
 		cov["backends"] = backends
 		cov["solver_time_s"] = solverT
+		// the obligations that took the deciding solver longest (recorded time of the original solve when served from the cache):
+		// queries that drift towards the timeout are the ones that later fail for no semantic reason
+		type slowO struct {
+			ID      string  `json:"obligation"`
+			Seconds float64 `json:"seconds"`
+			Solver  string  `json:"backend"`
+		}
+		var slow []slowO
+		for _, o := range pr.obls {
+			if o.Res != nil && o.Res.Seconds >= 1.0 {
+				slow = append(slow, slowO{o.ID, o.Res.Seconds, o.Res.Solver})
+			}
+		}
+		sort.Slice(slow, func(i, j int) bool { return slow[i].Seconds > slow[j].Seconds })
+		if len(slow) > 12 {
+			slow = slow[:12]
+		}
+		cov["slowest_obligations"] = slow
 		cov["solve_wall_s"] = solveS
 		cov["load_s"] = pr.loadSecs
 		cov["obligation_kinds"] = kinds
@@ -619,7 +652,7 @@ func cmdSelftest(args []string) int {
 				fmt.Printf("%-45s %-4s SKIP (does not apply): %v\n", name, prop, err)
 				continue
 			}
-			ids, _ := failingIDs(ov, prop, "quick")
+			ids, _ := failingIDs(ov, prop, "quick", m.Kind == "must-pass")
 			hit := false
 			var ex *regexp.Regexp
 			if m.Expect != "" {
